@@ -138,7 +138,7 @@ def _family(name: str, tier: str) -> t.List[dict]:
         # every ordered pair of constructs nested one level; role overlaps that have their own families
         # (second consumer of a recurrent destination, outside readers, shared cases) are excluded here
         from mc.ref import structure_tags
-        nest = {'rec.contains-switch', 'rec.contains-oneof', 'oneof.contains-switch', 'oneof.contains-rec',
+        nest = {'rec.contains-switch', 'rec.contains-oneof', 'rec.contains-rec', 'oneof.contains-switch', 'oneof.contains-rec',
                 'oneof.contains-oneof', 'switch.case-contains-oneof', 'switch.case-contains-rec',
                 'switch.case-contains-switch'}
         excl = {'rec.dest-multi-consumer', 'rec.has-outside-reader', 'switch.case-also-direct',
@@ -148,11 +148,127 @@ def _family(name: str, tier: str) -> t.List[dict]:
                 st = structure_tags(sp)
                 if st & nest and not st & excl:
                     out.append(sp)
+    elif name == 'oneofx':
+        out += oneofx(tier)
     elif name == 'overlap':
         for n in range(3, (4 if q else 5) + 1):
             out += programs(n, 1 if n >= 5 else 2, 0, overlap=True, rec_max=1)
     else:
         raise KeyError(name)
+    return out
+
+
+# ------------------------------------------------------------------------------------ composed one-of family
+
+CAND_SHAPES = ('leaf', 'chain', 'join', 'relay', 'sh', 'sh-join', 'sh-relay')
+
+
+class _Builder:
+    def __init__(self) -> None:
+        self.nodes: t.Dict[str, dict] = {'I': {'params': [['x', 'plain', None]]}}
+        self.k = 0
+
+    def node(self, prefix: str, *deps: str) -> str:
+        self.k += 1
+        name = f'{prefix}{self.k}'
+        self.nodes[name] = {'params': [[f'p{i}', 'in', d] for i, d in enumerate(deps)]}
+        return name
+
+    def shared(self) -> str:
+        if 'Sh' not in self.nodes:
+            self.nodes['Sh'] = {'params': [['p0', 'in', 'I']]}
+        return 'Sh'
+
+    def cand(self, shape: str, base: str = 'I') -> str:
+        if shape == 'leaf':
+            return self.node('C', base)
+        if shape == 'chain':
+            return self.node('C', self.node('H', base))
+        if shape == 'join':
+            return self.node('C', self.node('X', base), self.node('Y', base))
+        if shape == 'relay':
+            x = self.node('X', base)
+            return self.node('C', x, self.node('R', self.node('Y', base)))
+        if shape == 'sh':
+            return self.node('C', self.shared())
+        if shape == 'sh-join':
+            return self.node('C', self.shared(), self.node('Y', base))
+        if shape == 'sh-relay':
+            return self.node('C', self.shared(), self.node('R', self.node('Y', base)))
+        raise KeyError(shape)
+
+    def consumer(self, prefix: str, params: t.List[list]) -> str:
+        self.k += 1
+        name = f'{prefix}{self.k}'
+        self.nodes[name] = {'params': params}
+        return name
+
+    def spec(self, output: str) -> dict:
+        # list nodes in dependency order
+        deps = {n: {r[1] for r in S.refs(nd)} for n, nd in self.nodes.items()}
+        order: t.List[str] = []
+        def visit(n: str) -> None:
+            if n in order:
+                return
+            for d in sorted(deps[n]):
+                visit(d)
+            order.append(n)
+        visit(output)
+        return {'nodes': {n: self.nodes[n] for n in order}, 'input': 'I', 'output': output}
+
+
+def oneofx(tier: str = 'quick') -> t.List[dict]:
+    """One-of programs composed from candidate sub-pipeline shapes and consumer topologies (single, sibling,
+    sibling with a one-candidate one-of, chained, chained with an outside consumer in both parameter orders,
+    nested, main pipeline sharing an ancestor with the candidates)."""
+    q = tier == 'quick'
+    firsts = CAND_SHAPES
+    seconds = ('leaf',) if q else ('leaf', 'chain', 'sh')
+    out: t.List[dict] = []
+    seen: t.Set[str] = set()
+
+    def emit(b: _Builder, output: str) -> None:
+        sp = S.normalise(b.spec(output))
+        k = S.canon(sp)
+        if k not in seen and S.well_formed(sp) and not S.static_tags(sp):
+            seen.add(k)
+            out.append(sp)
+
+    for s1 in firsts:
+        for s2 in seconds:
+            b = _Builder()
+            c1, c2 = b.cand(s1), b.cand(s2)
+            emit(b, b.consumer('O', [['o', 'oneof', [c1, c2]]]))
+            # main pipeline shares the ancestor
+            b = _Builder()
+            c1, c2 = b.cand(s1), b.cand(s2)
+            emit(b, b.consumer('O', [['o', 'oneof', [c1, c2]], ['m', 'in', b.shared()]]))
+            # nested: the first one-of's consumer is the first candidate of the outer one
+            b = _Builder()
+            c1, c2 = b.cand(s1), b.cand(s2)
+            n = b.consumer('N', [['o', 'oneof', [c1, c2]]])
+            emit(b, b.consumer('O', [['o', 'oneof', [n, b.cand('leaf')]]]))
+            # chained: a candidate of the second one-of depends on the first one-of's consumer
+            for outside in (None, 'kf', 'fk'):
+                b = _Builder()
+                c1, c2 = b.cand(s1), b.cand(s2)
+                m = b.consumer('M', [['o', 'oneof', [c1, c2]]])
+                c3 = b.cand('leaf', m)
+                k2 = b.consumer('K', [['o', 'oneof', [c3, b.cand('leaf')]]])
+                if outside is None:
+                    emit(b, k2)
+                elif outside == 'kf':
+                    emit(b, b.consumer('G', [['k', 'in', k2], ['f', 'in', m]]))
+                else:
+                    emit(b, b.consumer('G', [['f', 'in', m], ['k', 'in', k2]]))
+        # siblings
+        for s3 in (firsts if not q else ('leaf', 'sh', 'sh-join', 'join')):
+            for single in (False, True):
+                b = _Builder()
+                c1, c2 = b.cand(s1), b.cand('leaf')
+                c3 = b.cand(s3)
+                second = [c3] if single else [c3, b.cand('leaf')]
+                emit(b, b.consumer('O', [['o1', 'oneof', [c1, c2]], ['o2', 'oneof', second]]))
     return out
 
 
@@ -197,6 +313,13 @@ def base_plans(spec: dict, tier: str = 'quick') -> t.List[dict]:
                     b[d] = ['next'] * k + ['ok']
             if ok:
                 out.append(b)
+                # a switch node that is re-executed in a later iteration may return another label there
+                iterated = [c for c in combo if c is not None]
+                if iterated and lc:
+                    for sname in lc:
+                        if sname in b and b[sname][0].startswith('label:') and len(labels[sname]) > 1:
+                            other = [l for l in labels[sname] if 'label:' + l != b[sname][0]][0]
+                            out.append(dict(b, **{sname: [b[sname][0], 'label:' + other]}))
     return out
 
 
